@@ -159,6 +159,24 @@ def judge (p : Option Parsed) (cat : Catalog) (columns : List String) : Obs → 
 
 /-! ### Model side -/
 
+def columnsOf : Expr → List String
+  | .col c => [c]
+  | .const _ => []
+  | .f1 _ e => columnsOf e
+  | .f2 _ a b => columnsOf a ++ columnsOf b
+  | .agg _ e => columnsOf e
+
+/-- Input characterisation of the open finding `orderby-type-divergent-column-panic`: a sorted, non-aggregating
+    main phase over at least two partitions that collects (select item or sort key) a column whose basic type is
+    numeric in one partition and string in another (`divergent`, a catalogue fact read by the harness from the
+    column handles).  Merging two ORDERED partial results brings every column pair to
+    `EncodingType::least_upper_bound`, which is `unimplemented!` for {I64, F64} × {Str, OptStr}; a partial result
+    that already went through `Val` merges with anything, so the outcome depends on which pair is merged first. -/
+def orderedDivergent (plan : TaskPlan) (divergent : List String) : Bool :=
+  decide (plan.partitions ≥ 2) && !plan.norm.main.orderBy.isEmpty && plan.norm.main.aggregate.isEmpty
+  && (plan.norm.main.projection.any (fun ci => (columnsOf ci.expr).any divergent.contains)
+      || plan.norm.main.orderBy.any (fun ob => (columnsOf ob.1).any divergent.contains))
+
 def mentionsOnlyColumns (obs : List (Expr × Bool)) : Bool :=
   obs.all fun ob => isColName ob.1
 
@@ -172,11 +190,14 @@ def predictRows (plan : TaskPlan) (q : Query) (rows : Nat) : Option Nat :=
     some (min lim.limit (rows - min lim.offset rows))
   else none
 
-def modelRun (p : Parsed) (cat : Catalog) (rows : Nat) (obs : Obs) : String :=
+def modelRun (p : Parsed) (cat : Catalog) (rows : Nat) (obs : Obs) (divergent : List String := []) : String :=
   match runFront p cat with
   | .err e => "err:" ++ toString e
   | .fault _ => "panic"
   | .ok plan =>
+      -- schedule-dependent outcome (answer or worker panic, by the order in which partial results are merged):
+      -- the model does not predict
+      if orderedDivergent plan divergent then "?" else
       match obs with
       | .err k => if k = "canceled" then "ok" else "?"
       | _ =>
@@ -207,13 +228,6 @@ def isBoolExpr : Expr → Bool
       || t == .regex || t == .like || t == .notLike
   | .f1 t _ => t == .not || t == .isNull || t == .isNotNull
   | _ => false
-
-def columnsOf : Expr → List String
-  | .col c => [c]
-  | .const _ => []
-  | .f1 _ e => columnsOf e
-  | .f2 _ a b => columnsOf a ++ columnsOf b
-  | .agg _ e => columnsOf e
 
 /-- Some sole select item is the identifier `*` written with quotes (a column named `*`), which the
     engine cannot tell from the wildcard. -/
@@ -249,13 +263,15 @@ def groupsByComputedKey (main : NormalFormQuery) : Bool :=
   !main.aggregate.isEmpty
   && main.projection.any (fun ci => isBoolExpr ci.expr || !ci.expr.hasColumn)
 
-def classify (p : Parsed) (cat : Catalog) (verdict sig : String) : String :=
+def classify (p : Parsed) (cat : Catalog) (verdict sig : String) (divergent : List String := []) : String :=
   if verdict = "OK" then "" else
   let lost := verdict = "BAD lost-answer" || verdict = "BAD hang"
   match runFront p cat with
   | .ok plan =>
       if lost && groupKeySig sig && groupsByComputedKey plan.norm.main then "groupby-computed-key"
       else if verdict = "BAD column-count" && quotedStar p then "C12-quoted-star-is-wildcard"
+      else if verdict = "BAD lost-answer" && containsSub sig "lub not implemented for" && orderedDivergent plan divergent then
+        "orderby-type-divergent-column-panic"
       else ""
   | _ => ""
 
@@ -284,15 +300,21 @@ def step (line : String) : String :=
       | some (p, []) =>
           modelFront p ++ "\t" ++ (if status = ["panic"] then "BAD panic-in-caller" else "OK")
       | _ => "bad-op\tbad-op"
-  | "run" :: ex :: metaTok :: parts :: rows :: cols :: rf :: rest =>
+  | "run" :: ex :: metaTok :: parts :: rows :: cols :: rf :: rest0 =>
+      -- optional catalogue fact `d<names>`: columns that are numeric in one partition and string in another
+      let (divergent, rest) := match rest0 with
+        | t :: more => (match t.toList with
+            | 'd' :: names => ((parseNames (String.ofList names)).getD [], more)
+            | _ => ([], rest0))
+        | [] => ([], rest0)
       let (ast, obsToks) := splitAt rest
       match pParsed ast, parseObs obsToks, parseMeta metaTok, parts.toNat?, rows.toNat?, parseNames cols with
       | some (p, []), some (obs, sig), some m, some np, some nr, some columns =>
           let cat : Catalog := { tableExists := ex = "1", metaCols := m, partitions := np }
           let _ := rf
           let verdict := judge (some p) cat columns obs
-          let known := classify p cat verdict sig
-          modelRun p cat nr obs ++ "\t" ++ verdict ++ (if known = "" then "" else "\t" ++ known)
+          let known := classify p cat verdict sig divergent
+          modelRun p cat nr obs divergent ++ "\t" ++ verdict ++ (if known = "" then "" else "\t" ++ known)
       | _, _, _, _, _, _ => "bad-op\tbad-op"
   | "mut" :: rest =>
       let (_, obsToks) := splitAt rest
